@@ -124,10 +124,14 @@ static Matrix3d boxof(int id, int frame) {
 struct TC {
   std::string fam = "rt", fmt = "gro", chk;
   int nb = 1, nf = 1, pat = 0, box = 0, vf = 0, nm = 0, shim = 0, m = 0, at = 0;
+  // family ru (reuse histories): second format, base configurations of the two files, history kind
+  std::string f2 = "", mode = "";
+  int k1 = 0, k2 = 0;
   std::string str() const {
     std::ostringstream o;
     o << "fam=" << fam << ";fmt=" << fmt << ";nb=" << nb << ";nf=" << nf << ";pat=" << pat << ";box=" << box
       << ";vf=" << vf << ";nm=" << nm << ";shim=" << shim << ";m=" << m << ";at=" << at;
+    if (fam == "ru") o << ";f2=" << f2 << ";k1=" << k1 << ";k2=" << k2 << ";mode=" << mode;
     return o.str();
   }
   static TC parse(const std::string &s) {
@@ -137,6 +141,7 @@ struct TC {
     c.nb = atoi(m["nb"].c_str()); c.nf = atoi(m["nf"].c_str()); c.pat = atoi(m["pat"].c_str());
     c.box = atoi(m["box"].c_str()); c.vf = atoi(m["vf"].c_str()); c.nm = atoi(m["nm"].c_str());
     c.shim = atoi(m["shim"].c_str()); c.m = atoi(m["m"].c_str()); c.at = atoi(m["at"].c_str());
+    if (m.count("f2")) { c.f2 = m["f2"]; c.k1 = atoi(m["k1"].c_str()); c.k2 = atoi(m["k2"].c_str()); c.mode = m["mode"]; }
     return c;
   }
 };
@@ -188,6 +193,7 @@ static double pick(const std::vector<double> &A, const TC &c, int f, int b, int 
 struct Frame {
   std::vector<Vector3d> p, v, f;
   Matrix3d box;
+  std::vector<char> hv, hf;  // what the beads claimed to have when the frame was read
 };
 static Frame frameof(const TC &c, int nb, int f) {
   const FmtInfo &fi = finfo(c.fmt);
@@ -419,17 +425,15 @@ struct ReadOut {
   int threw_at = -1;
   std::string msg;
 };
-static ReadOut read_trj(const std::string &fn, int nbt, int nm, int maxframes = 50) {
+// read fn with the given reader object into top (sentinel before every frame unless keep); like CsgApplication:
+// FirstFrame unconditionally, then NextFrame until false
+static ReadOut read_with(TrajectoryReader &rd, const std::string &fn, Topology &top, int maxframes = 50, bool keep = false) {
   ReadOut ro;
-  Topology top;
-  build(top, nbt, nm);
-  sentinel(top);
-  std::unique_ptr<TrajectoryReader> rd;
   int k = 0;
   try {
-    rd = TrjReaderFactory().Create(fn);
-    rd->Open(fn);
-    rd->FirstFrame(top);  // like CsgApplication: the first frame is taken unconditionally
+    rd.Open(fn);
+    if (!keep) sentinel(top);
+    rd.FirstFrame(top);
     for (;;) {
       Frame f;
       for (Index b = 0; b < top.BeadCount(); b++) {
@@ -438,21 +442,35 @@ static ReadOut read_trj(const std::string &fn, int nbt, int nm, int maxframes = 
         f.p.push_back(bd->HasPos() ? bd->getPos() : none);
         f.v.push_back(bd->HasVel() ? bd->getVel() : none);
         f.f.push_back(bd->HasF() ? bd->getF() : none);
+        f.hv.push_back(bd->HasVel());
+        f.hf.push_back(bd->HasF());
       }
       f.box = top.getBox();
       ro.fr.push_back(f);
       k++;
       if (k >= maxframes) break;
-      sentinel(top);
-      if (!rd->NextFrame(top)) break;
+      if (!keep) sentinel(top);
+      if (!rd.NextFrame(top)) break;
     }
-    rd->Close();
+    rd.Close();
   } catch (const std::exception &e) {
     ro.threw = true;
     ro.threw_at = k;
     ro.msg = e.what();
   }
   return ro;
+}
+static ReadOut read_trj(const std::string &fn, int nbt, int nm, int maxframes = 50) {
+  Topology top;
+  build(top, nbt, nm);
+  std::unique_ptr<TrajectoryReader> rd;
+  try {
+    rd = TrjReaderFactory().Create(fn);
+  } catch (const std::exception &e) {
+    ReadOut ro; ro.threw = true; ro.threw_at = 0; ro.msg = e.what();
+    return ro;
+  }
+  return read_with(*rd, fn, top, maxframes);
 }
 
 static void write_frames(const std::string &fn, const TC &c, const std::vector<int> &counts) {
@@ -470,33 +488,17 @@ static void write_frames(const std::string &fn, const TC &c, const std::vector<i
   w->Close();
 }
 
-// ------------------------------------------------------------------ family rt
-static void run_rt(const TC &c, Fails &F, std::string &sig) {
+// ------------------------------------------------------------------ shared comparisons
+static bool stores_vel(const TC &c) { return (c.vf & 1) && finfo(c.fmt).vel; }
+static bool stores_frc(const TC &c) { return (c.vf & 2) && finfo(c.fmt).frc && (c.fmt.rfind("dlp", 0) != 0 || (c.vf & 1)); }
+// frames read (ro) against the frames configuration c was written from
+static void verify_frames(const TC &c, const ReadOut &ro, Fails &F) {
   const FmtInfo &fi = finfo(c.fmt);
-  std::string fn = "t." + fi.ext;
-  try {
-    write_frames(fn, c, std::vector<int>(c.nf, c.nb));
-  } catch (const std::exception &e) {
-    F.add(kf(c.fmt) + "-write-throws", std::string("writer threw: ") + e.what());
-    return;
-  }
-  std::string written = slurp(fn);
-  apply_shim(c, fn);
-  std::string text = slurp(fn);
-  bool hv = (c.vf & 1) && fi.vel;
-  bool hf = (c.vf & 2) && fi.frc && (c.fmt.rfind("dlp", 0) != 0 || (c.vf & 1));
-  // --- trajectory reader
-  ReadOut ro = read_trj(fn, c.nb, c.nm);
+  bool hv = stores_vel(c), hf = stores_frc(c);
   std::vector<Frame> exp;
   for (int f = 0; f < c.nf; f++) exp.push_back(frameof(c, c.nb, f));
-  if (ro.threw) {
-    std::string first = lines(written).size() > 2 ? lines(written)[2] : "";
-    F.add(reject_key(c, text), "reader threw at frame " + std::to_string(ro.threw_at) + " of its own writer's output: " +
-                                   ro.msg.substr(0, 120) + " | 3rd line of file: '" + first + "'");
-  } else {
-    if ((int)ro.fr.size() != c.nf)
-      F.add(kf(c.fmt) + "-frame-count", "wrote " + std::to_string(c.nf) + " frames, read " + std::to_string(ro.fr.size()));
-  }
+  if (!ro.threw && (int)ro.fr.size() != c.nf)
+    F.add(kf(c.fmt) + "-frame-count", "wrote " + std::to_string(c.nf) + " frames, read " + std::to_string(ro.fr.size()));
   size_t ncmp = std::min(ro.fr.size(), exp.size());
   for (size_t f = 0; f < ncmp; f++) {
     // frame order: positions equal to those of another frame?
@@ -516,6 +518,65 @@ static void run_rt(const TC &c, Fails &F, std::string &sig) {
     if (hf) cmpvec(F, c, 'F', "force", (int)f, ro.fr[f].f, exp[f].f);
     if (fi.box) cmpbox(F, c, (int)f, ro.fr[f].box, exp[f].box, !fi.tric);
   }
+}
+// topology t2 as read by a TopologyReader against configuration c (names as far as stored + first frame)
+static void verify_top(const TC &c, Topology &t2, Fails &F, std::string &sig) {
+  const FmtInfo &fi = finfo(c.fmt);
+  auto sp = specs(c.nb, c.nm);
+  if (t2.BeadCount() != c.nb) {
+    F.add(kf(c.fmt) + "-top-bead-count", "topology read has " + std::to_string(t2.BeadCount()) + " beads, written " + std::to_string(c.nb));
+    return;
+  }
+  Topology ref;
+  build(ref, c.nb, c.nm);
+  Frame e0 = frameof(c, c.nb, 0);
+  std::vector<Vector3d> gp;
+  for (int b = 0; b < c.nb; b++) {
+    const Bead *bd = t2.getBead(b);
+    gp.push_back(bd->HasPos() ? bd->getPos() : Vector3d(SENT, SENT, SENT));
+    std::string where = " of bead " + std::to_string(b) + " (written name '" + sp[b].name + "' type '" + sp[b].type + "' residue '" + sp[b].res + "')";
+    if (c.fmt == "gro") {
+      if (bd->getName() != sp[b].name.substr(0, 5)) F.add("gro-top-name", "name read '" + bd->getName() + "'" + where);
+      std::string rn = bd->getResnr() < t2.ResidueCount() ? t2.getResidue(bd->getResnr()).getName() : "<no such residue>";
+      if (rn != sp[b].res.substr(0, 5)) F.add("gro-top-resname", "residue name read '" + rn + "'" + where);
+      if (bd->getResnr() != sp[b].resnr) F.add("gro-top-resnr", "residue number read " + std::to_string(bd->getResnr()) + where);
+    } else if (c.fmt == "xyz") {
+      if (bd->getType() != sp[b].name.substr(0, 3)) F.add("xyz-top-name", "element/type read '" + bd->getType() + "'" + where);
+    } else if (c.fmt == "pdb") {
+      if (bd->getName() != sp[b].name.substr(0, 4)) F.add("pdb-top-name", "name read '" + bd->getName() + "'" + where);
+      std::string rn = bd->getResnr() < t2.ResidueCount() ? t2.getResidue(bd->getResnr()).getName() : "<no such residue>";
+      if (rn != sp[b].res.substr(0, 3)) F.add("pdb-top-resname", "residue name read '" + rn + "'" + where);
+    } else if (c.fmt == "dump") {
+      std::string et = std::to_string(ref.getBeadTypeId(sp[b].type));
+      if (bd->getType() != et) F.add("dump-top-type", "type read '" + bd->getType() + "' expected numeric type id '" + et + "'" + where);
+    }
+  }
+  cmpvec(F, c, 'P', "pos", 0, gp, e0.p);  // first frame as seen by the topology reader
+  if (fi.box) cmpbox(F, c, 0, t2.getBox(), e0.box, !fi.tric);
+  sig += "|top" + std::to_string(t2.BeadCount()) + ":" + t2.getBead(0)->getName() + ":" + t2.getBead(0)->getType();
+}
+
+// ------------------------------------------------------------------ family rt
+static void run_rt(const TC &c, Fails &F, std::string &sig) {
+  const FmtInfo &fi = finfo(c.fmt);
+  std::string fn = "t." + fi.ext;
+  try {
+    write_frames(fn, c, std::vector<int>(c.nf, c.nb));
+  } catch (const std::exception &e) {
+    F.add(kf(c.fmt) + "-write-throws", std::string("writer threw: ") + e.what());
+    return;
+  }
+  std::string written = slurp(fn);
+  apply_shim(c, fn);
+  std::string text = slurp(fn);
+  // --- trajectory reader
+  ReadOut ro = read_trj(fn, c.nb, c.nm);
+  if (ro.threw) {
+    std::string first = lines(written).size() > 2 ? lines(written)[2] : "";
+    F.add(reject_key(c, text), "reader threw at frame " + std::to_string(ro.threw_at) + " of its own writer's output: " +
+                                   ro.msg.substr(0, 120) + " | 3rd line of file: '" + first + "'");
+  }
+  verify_frames(c, ro, F);
   sig = std::to_string(ro.fr.size()) + (ro.threw ? "T" : "");
   // --- topology reader (names as far as the format stores them + first frame)
   bool do_top = fi.top && !(c.fmt == "pdb" && c.nm != 3);  // pdb topologies need element symbols as atom names (documented)
@@ -529,37 +590,7 @@ static void run_rt(const TC &c, Fails &F, std::string &sig) {
       sig += "|topT";
       return;
     }
-    auto sp = specs(c.nb, c.nm);
-    if (t2.BeadCount() != c.nb) {
-      F.add(kf(c.fmt) + "-top-bead-count", "topology read has " + std::to_string(t2.BeadCount()) + " beads, written " + std::to_string(c.nb));
-      return;
-    }
-    Topology ref;
-    build(ref, c.nb, c.nm);
-    std::vector<Vector3d> gp;
-    for (int b = 0; b < c.nb; b++) {
-      const Bead *bd = t2.getBead(b);
-      gp.push_back(bd->HasPos() ? bd->getPos() : Vector3d(SENT, SENT, SENT));
-      std::string where = " of bead " + std::to_string(b) + " (written name '" + sp[b].name + "' type '" + sp[b].type + "' residue '" + sp[b].res + "')";
-      if (c.fmt == "gro") {
-        if (bd->getName() != sp[b].name.substr(0, 5)) F.add("gro-top-name", "name read '" + bd->getName() + "'" + where);
-        std::string rn = t2.getResidue(bd->getResnr()).getName();
-        if (rn != sp[b].res.substr(0, 5)) F.add("gro-top-resname", "residue name read '" + rn + "'" + where);
-        if (bd->getResnr() != sp[b].resnr) F.add("gro-top-resnr", "residue number read " + std::to_string(bd->getResnr()) + where);
-      } else if (c.fmt == "xyz") {
-        if (bd->getType() != sp[b].name.substr(0, 3)) F.add("xyz-top-name", "element/type read '" + bd->getType() + "'" + where);
-      } else if (c.fmt == "pdb") {
-        if (bd->getName() != sp[b].name.substr(0, 4)) F.add("pdb-top-name", "name read '" + bd->getName() + "'" + where);
-        std::string rn = t2.getResidue(bd->getResnr()).getName();
-        if (rn != sp[b].res.substr(0, 3)) F.add("pdb-top-resname", "residue name read '" + rn + "'" + where);
-      } else if (c.fmt == "dump") {
-        std::string et = std::to_string(ref.getBeadTypeId(sp[b].type));
-        if (bd->getType() != et) F.add("dump-top-type", "type read '" + bd->getType() + "' expected numeric type id '" + et + "'" + where);
-      }
-    }
-    cmpvec(F, c, 'P', "pos", 0, gp, exp[0].p);  // first frame as seen by the topology reader
-    if (fi.box) cmpbox(F, c, 0, t2.getBox(), exp[0].box, !fi.tric);
-    sig += "|top" + std::to_string(t2.BeadCount()) + ":" + t2.getBead(0)->getName() + ":" + t2.getBead(0)->getType();
+    verify_top(c, t2, F, sig);
   }
 }
 
@@ -696,6 +727,184 @@ static void run_xml(const TC &c, Fails &F, std::string &sig) {
   sig = std::to_string(n) + ":" + top.getBead(n - 1)->getName();
 }
 
+// ------------------------------------------------------------------ family ru (reuse histories)
+// base configurations of a file in format fmt
+static TC cfg(const std::string &fmt, int k) {
+  static const int NB[4] = {1, 2, 2, 3}, NF[4] = {1, 2, 1, 3}, VF[4] = {0, 1, 3, 0}, BX[4] = {0, 1, 2, 0}, PT[4] = {0, 3, 5, 7};
+  const FmtInfo &fi = finfo(fmt);
+  TC c;
+  c.fam = "rt"; c.fmt = fmt; c.nb = NB[k]; c.nf = fmt == "dlpc" ? 1 : NF[k]; c.vf = VF[k];
+  c.box = (BX[k] >= 2 && !fi.tric) ? 1 : BX[k];
+  c.pat = PT[k]; c.nm = fmt == "pdb" ? 3 : 1;
+  return c;
+}
+static void add_prefixed(Fails &F, const Fails &in, const std::string &prefix, const std::string &ctx) {
+  for (auto &p : in.v) F.add(prefix + p.first, ctx + ": " + p.second);
+}
+static void write_xml_top(const std::string &fn, int nb, int nmols) {
+  auto sp = specs(nb, 1);
+  std::ofstream x(fn);
+  x << "<topology>\n <molecules>\n  <molecule name=\"MOL\" nmols=\"" << nmols << "\" nbeads=\"" << nb << "\">\n";
+  for (int b = 0; b < nb; b++) x << "   <bead name=\"" << sp[b].name << "\" type=\"" << sp[b].type << "\" mass=\"" << (1 + b) << "\" q=\"0\"/>\n";
+  x << "  </molecule>\n </molecules>\n <box xx=\"3\" yy=\"4.5\" zz=\"6.25\"/>\n</topology>\n";
+}
+static void verify_xml_top(Topology &t, int nb, int nmols, Fails &F) {
+  auto sp = specs(nb, 1);
+  if (t.BeadCount() != nb * nmols) { F.add("xml-top-bead-count", "read " + std::to_string(t.BeadCount()) + " beads, xml defines " + std::to_string(nb * nmols)); return; }
+  if (t.MoleculeCount() != nmols) F.add("xml-top-molecule-count", "molecules " + std::to_string(t.MoleculeCount()) + " expected " + std::to_string(nmols));
+  for (int i = 0; i < nb * nmols; i++) {
+    if (t.getBead(i)->getName() != sp[i % nb].name) F.add("xml-top-name", "bead " + std::to_string(i) + " name '" + t.getBead(i)->getName() + "'");
+    if (t.getBead(i)->getType() != sp[i % nb].type) F.add("xml-top-type", "bead " + std::to_string(i) + " type '" + t.getBead(i)->getType() + "'");
+  }
+  Index nmol_beads = 0;
+  for (Index m = 0; m < t.MoleculeCount(); m++) nmol_beads += t.getMolecule(m)->BeadCount();
+  if (nmol_beads != nb * nmols) F.add("xml-top-molecule-beads", "molecules hold " + std::to_string(nmol_beads) + " beads in total, expected " + std::to_string(nb * nmols));
+}
+static void run_ru(const TC &c, Fails &F, std::string &sig) {
+  const std::string &mode = c.mode;
+  std::string e1 = c.fmt == "xml" ? "xml" : finfo(c.fmt).ext, e2 = c.f2 == "xml" ? "xml" : finfo(c.f2).ext;
+  std::string fn1 = "a." + e1, fn2 = "b." + e2;
+  // ---- w: ONE writer object, two files
+  if (mode == "w") {
+    TC c1 = cfg(c.fmt, c.k1), c2 = cfg(c.f2, c.k2);
+    std::unique_ptr<TrajectoryWriter> w = TrjWriterFactory().Create(fn1);
+    const TC *cc[2] = {&c1, &c2};
+    const std::string *fn[2] = {&fn1, &fn2};
+    for (int i = 0; i < 2; i++) {
+      Topology top;
+      build(top, cc[i]->nb, cc[i]->nm);
+      w->Open(*fn[i], false);
+      for (int f = 0; f < cc[i]->nf; f++) { setframe(top, *cc[i], frameof(*cc[i], cc[i]->nb, f), f); w->Write(&top); }
+      w->Close();
+    }
+    for (int i = 0; i < 2; i++) {
+      ReadOut ro = read_trj(*fn[i], cc[i]->nb, cc[i]->nm);
+      Fails Fi;
+      if (ro.threw) Fi.add(kf(cc[i]->fmt) + "-unreadable", "fresh reader threw at frame " + std::to_string(ro.threw_at) + ": " + ro.msg.substr(0, 100));
+      verify_frames(*cc[i], ro, Fi);
+      add_prefixed(F, Fi, "reuse-writer:", std::string("file ") + (i ? "2" : "1") + " of one writer object (" + *fn[i] + ")");
+      sig += std::to_string(ro.fr.size()) + ",";
+    }
+    return;
+  }
+  // ---- r / p: ONE reader object, two files (p: the first file is closed after its first frame)
+  if (mode == "r" || mode == "p") {
+    TC c1 = cfg(c.fmt, c.k1), c2 = cfg(c.f2, c.k2);
+    write_frames(fn1, c1, std::vector<int>(c1.nf, c1.nb));
+    write_frames(fn2, c2, std::vector<int>(c2.nf, c2.nb));
+    std::unique_ptr<TrajectoryReader> rd = TrjReaderFactory().Create(fn1);
+    Topology t1, t2;
+    build(t1, c1.nb, c1.nm);
+    build(t2, c2.nb, c2.nm);
+    ReadOut r1 = read_with(*rd, fn1, t1, mode == "p" ? 1 : 50);
+    ReadOut r2 = read_with(*rd, fn2, t2);
+    std::string pre = mode == "p" ? "reuse-reader-partial:" : "reuse-reader:";
+    Fails F1, F2;
+    if (r1.threw) F1.add(kf(c1.fmt) + "-unreadable", "reader threw at frame " + std::to_string(r1.threw_at) + ": " + r1.msg.substr(0, 100));
+    if (mode == "r") verify_frames(c1, r1, F1);
+    if (r2.threw) F2.add(kf(c2.fmt) + "-unreadable", "reader threw at frame " + std::to_string(r2.threw_at) + ": " + r2.msg.substr(0, 100));
+    verify_frames(c2, r2, F2);
+    add_prefixed(F, F1, pre, "first file of one reader object (" + fn1 + ")");
+    add_prefixed(F, F2, pre, "second file of one reader object (" + fn2 + ")");
+    sig = std::to_string(r1.fr.size()) + "," + std::to_string(r2.fr.size());
+    return;
+  }
+  // ---- t: ONE Topology, file 1 (format a, k1 = velocity/force flags) then file 2 (format b, k2 = flags), nothing reset in between;
+  // ---- x: ONE file whose frames differ in what they carry (gro, dump), read into one Topology
+  if (mode == "t" || mode == "x") {
+    static const int SEQ[4][3] = {{3, 0, 3}, {0, 3, 0}, {1, 0, 0}, {3, 1, 0}};
+    std::vector<TC> per;  // configuration of every frame of the file under test
+    std::string fnb;
+    Topology T;
+    if (mode == "t") {
+      TC c1; c1.fam = "rt"; c1.fmt = c.fmt; c1.nb = 2; c1.nf = c.fmt == "dlpc" ? 1 : 2; c1.vf = c.k1; c1.box = 0; c1.pat = 1; c1.nm = 1;
+      TC c2 = c1; c2.fmt = c.f2; c2.nf = c.f2 == "dlpc" ? 1 : 2; c2.vf = c.k2; c2.box = 1; c2.pat = 4;
+      write_frames(fn1, c1, std::vector<int>(c1.nf, 2));
+      write_frames(fn2, c2, std::vector<int>(c2.nf, 2));
+      build(T, 2, 1);
+      std::unique_ptr<TrajectoryReader> ra = TrjReaderFactory().Create(fn1);
+      ReadOut r1 = read_with(*ra, fn1, T, 50, true);
+      if (r1.threw) { F.add("reuse-topology:" + kf(c.fmt) + "-unreadable", "first file: " + r1.msg.substr(0, 100)); return; }
+      for (int f = 0; f < c2.nf; f++) per.push_back(c2);
+      fnb = fn2;
+    } else {
+      TC c1; c1.fam = "rt"; c1.fmt = c.fmt; c1.nb = c.nb; c1.nf = 3; c1.box = 0; c1.pat = 2; c1.nm = 1;
+      std::unique_ptr<TrajectoryWriter> w = TrjWriterFactory().Create(fn1);
+      Topology wt;
+      build(wt, c1.nb, c1.nm);
+      w->Open(fn1, false);
+      for (int f = 0; f < 3; f++) {
+        TC cf = c1; cf.vf = SEQ[c.k1][f];
+        setframe(wt, cf, frameof(cf, cf.nb, f), f);
+        w->Write(&wt);
+        per.push_back(cf);
+      }
+      w->Close();
+      build(T, c1.nb, 1);
+      fnb = fn1;
+    }
+    std::unique_ptr<TrajectoryReader> rb = TrjReaderFactory().Create(fnb);
+    ReadOut r2 = read_with(*rb, fnb, T, 50, true);
+    std::string pre = mode == "t" ? "reuse-topology:" : "mixed-frames:";
+    const std::string &fb = per[0].fmt;
+    const FmtInfo &fi = finfo(fb);
+    if (r2.threw) { F.add(pre + kf(fb) + "-unreadable", "reader threw at frame " + std::to_string(r2.threw_at) + ": " + r2.msg.substr(0, 100)); return; }
+    if (r2.fr.size() != per.size()) F.add(pre + kf(fb) + "-frame-count", "wrote " + std::to_string(per.size()) + " frames, read " + std::to_string(r2.fr.size()));
+    for (size_t f = 0; f < std::min(per.size(), r2.fr.size()); f++) {
+      const TC &cf = per[f];
+      Frame e = frameof(cf, cf.nb, (int)f);
+      Fails Fi;
+      cmpvec(Fi, cf, 'P', "pos", (int)f, r2.fr[f].p, e.p);
+      if (fi.box) cmpbox(Fi, cf, (int)f, r2.fr[f].box, e.box, !fi.tric);
+      bool anyv = false, anyf = false;
+      for (char h : r2.fr[f].hv) anyv = anyv || h;
+      for (char h : r2.fr[f].hf) anyf = anyf || h;
+      if (stores_vel(cf)) cmpvec(Fi, cf, 'V', "vel", (int)f, r2.fr[f].v, e.v);
+      else if (fi.vel && anyv)
+        Fi.add(kf(fb) + "-stale-velocities-claimed", "frame " + std::to_string(f) + " carries no velocities, yet Bead::HasVel() is true afterwards with the value of an earlier frame " + v3(r2.fr[f].v[0]));
+      if (stores_frc(cf)) cmpvec(Fi, cf, 'F', "force", (int)f, r2.fr[f].f, e.f);
+      else if (fi.frc && anyf)
+        Fi.add(kf(fb) + "-stale-forces-claimed", "frame " + std::to_string(f) + " carries no forces, yet Bead::HasF() is true afterwards with the value of an earlier frame " + v3(r2.fr[f].f[0]));
+      add_prefixed(F, Fi, pre, mode == "t" ? "second file (" + fnb + ") read into the topology that had received " + fn1 : "file with frames of different content");
+      sig += std::string(anyv ? "V" : "-") + (anyf ? "F" : "-") + ",";
+    }
+    return;
+  }
+  // ---- tr / ts / tn: topology readers: same reader object + fresh topology, same reader + same topology, new reader + same topology
+  if (mode == "tr" || mode == "ts" || mode == "tn") {
+    bool xml = c.fmt == "xml";
+    static const int XNB[4] = {1, 2, 2, 3}, XNM[4] = {1, 2, 1, 2};
+    TC c1, c2;
+    if (xml) {
+      write_xml_top(fn1, XNB[c.k1], XNM[c.k1]);
+      write_xml_top(fn2, XNB[c.k2], XNM[c.k2]);
+    } else {
+      c1 = cfg(c.fmt, c.k1); c2 = cfg(c.f2, c.k2);
+      write_frames(fn1, c1, std::vector<int>(c1.nf, c1.nb));
+      write_frames(fn2, c2, std::vector<int>(c2.nf, c2.nb));
+    }
+    std::unique_ptr<TopologyReader> ra = TopReaderFactory().Create(fn1), rb;
+    Topology ta, tb;
+    Fails Fi;
+    try {
+      ra->ReadTopology(fn1, ta);
+      TopologyReader *second = ra.get();
+      if (mode == "tn") { rb = TopReaderFactory().Create(fn2); second = rb.get(); }
+      Topology &target = mode == "tr" ? tb : ta;
+      second->ReadTopology(fn2, target);
+      if (xml) verify_xml_top(target, XNB[c.k2], XNM[c.k2], Fi);
+      else verify_top(c2, target, Fi, sig);
+      sig += "|" + std::to_string(target.BeadCount());
+    } catch (const std::exception &e) {
+      Fi.add(kf(c.fmt) + "-top-read-throws", std::string("exception: ") + std::string(e.what()).substr(0, 120));
+    }
+    std::string pre = mode == "tr" ? "reuse-topreader:" : mode == "ts" ? "reuse-topreader-same-topology:" : "reuse-topology-new-topreader:";
+    add_prefixed(F, Fi, pre, "second ReadTopology (" + fn2 + " after " + fn1 + ")");
+    return;
+  }
+  throw std::runtime_error("unknown ru mode " + mode);
+}
+
 // ------------------------------------------------------------------ one case
 static bsx::Outcome run_case(const TC &c) {
   bsx::Outcome o;
@@ -707,6 +916,7 @@ static bsx::Outcome run_case(const TC &c) {
     else if (c.fam == "dl2") run_dl2(c, F, sig);
     else if (c.fam == "pbx") run_pbx(c, F, sig);
     else if (c.fam == "xml") run_xml(c, F, sig);
+    else if (c.fam == "ru") run_ru(c, F, sig);
     else throw std::runtime_error("unknown family " + c.fam);
   } catch (const std::exception &e) {
     F.add(kf(c.fmt) + "-" + c.fam + "-unexpected-exception", std::string("unexpected exception: ") + e.what());
@@ -719,9 +929,7 @@ static bsx::Outcome run_case(const TC &c) {
     o.extra += p.first + "\x1d" + p.second + "\x1c";
     keys += p.first + ",";
   }
-  const FmtInfo &fi = finfo(c.fmt);
-  (void)fi;
-  o.cls = bsx::fnv(c.fam + "|" + c.fmt + "|" + std::to_string(c.nb) + "|" + std::to_string(c.vf) + "|" + std::to_string(c.box) + "|" +
+  o.cls = bsx::fnv(c.fam + "|" + c.mode + "|" + c.f2 + "|" + c.fmt + "|" + std::to_string(c.nb) + "|" + std::to_string(c.vf) + "|" + std::to_string(c.box) + "|" +
                    std::to_string(c.nm) + "|" + std::to_string(c.shim) + "|" + sig + "|" + keys);
   if (o.extra.empty()) o.extra = "sig=" + sig;
   return o;
@@ -793,6 +1001,39 @@ static std::vector<TC> enumerate(bool thorough) {
           TC c; c.fam = "xml"; c.fmt = tf; c.nb = nb; c.m = m; c.pat = pat; c.vf = 1;
           all.push_back(c);
         }
+  // 7. reuse histories (family ru)
+  {
+    std::vector<std::pair<std::string, std::string>> same;  // (format of file 1, format of file 2) handled by ONE reader/writer class
+    for (const char *f : {"gro", "xyz", "pdb", "dump"}) same.push_back({f, f});
+    same.push_back({"dlph", "dlph"}); same.push_back({"dlph", "dlpc"}); same.push_back({"dlpc", "dlpc"}); same.push_back({"dlpc", "dlph"});
+    for (const char *mode : {"w", "r", "p"})
+      for (auto &pr : same)
+        for (int k1 = 0; k1 < 4; k1++)
+          for (int k2 = 0; k2 < 4; k2++) {
+            TC c; c.fam = "ru"; c.fmt = pr.first; c.f2 = pr.second; c.k1 = k1; c.k2 = k2; c.mode = mode;
+            all.push_back(c);
+          }
+    for (auto &fa : formats())
+      for (auto &fb : formats())
+        for (int va : {0, 1, 3})
+          for (int vb : {0, 1, 3}) {
+            TC c; c.fam = "ru"; c.fmt = fa.name; c.f2 = fb.name; c.k1 = va; c.k2 = vb; c.mode = "t"; c.nb = 2;
+            all.push_back(c);
+          }
+    for (const char *f : {"gro", "dump"})
+      for (int nb = 1; nb <= 2; nb++)
+        for (int k = 0; k < 4; k++) {
+          TC c; c.fam = "ru"; c.fmt = f; c.f2 = f; c.k1 = k; c.mode = "x"; c.nb = nb;
+          all.push_back(c);
+        }
+    for (const char *mode : {"tr", "ts", "tn"})
+      for (const char *f : {"gro", "xyz", "pdb", "dump", "xml"})
+        for (int k1 = 0; k1 < 4; k1++)
+          for (int k2 = 0; k2 < 4; k2++) {
+            TC c; c.fam = "ru"; c.fmt = f; c.f2 = f; c.k1 = k1; c.k2 = k2; c.mode = mode;
+            all.push_back(c);
+          }
+  }
   return all;
 }
 
@@ -838,7 +1079,12 @@ int main(int argc, char **argv) {
       " x " + std::string(thorough ? "all" : "every second") + " cyclic shift(s) of the alphabet x boxes {orthorhombic, orthorhombic 5-decimal, triclinic lower-triangular, general 3x3 (gro, dlpoly only)} "
       "x velocity/force presence as far as the dialect stores them x 4 naming schemes (1 char, 1..5 chars with distinct types/residues, over-long 7..8 chars, element names) "
       "[x shim on/off for xyz and pdb]; (c) atom-count mismatch: frame of nb atoms read into a topology of m != nb beads at frame 0 or 1; "
-      "(d) second dlpoly file of a process; (e) CRYST1 via PDBWriter::WriteBox; (f) generated xml topology + written trajectory. "
+      "(d) second dlpoly file of a process; (e) CRYST1 via PDBWriter::WriteBox; (f) generated xml topology + written trajectory; "
+      "(g) reuse histories over 4 base configurations (1 bead/1 frame, 2 beads/2 frames+vel, 2 beads+vel+force+triclinic, 3 beads/3 frames), all ordered pairs: "
+      "one writer object for two files, one reader object for two files (also closed after the first frame of file 1), incl. dlph<->dlpc; "
+      "one Topology receiving a file of format a then a file of format b (all 36 ordered format pairs x velocity/force presence {none, vel, vel+force}^2) "
+      "and gro/dump files whose frames alternate in what they carry: a frame without velocities/forces must not leave Bead::HasVel()/HasF() true; "
+      "topology readers (gro, xyz, pdb, dump, xml): same reader + fresh topology, same reader + same topology, new reader + same topology. "
       "Oracle: same frame count/order, bead count, names/types/residues as far as stored, positions/velocities/forces/box equal to the originals "
       "within half a unit of the last printed digit after the format's own unit conversion; mismatch must raise an exception. "
       "distinct_nontrivial = distinct (family, format, sizes, flags, read-back signature, failure-key set) tuples";
@@ -853,7 +1099,7 @@ int main(int argc, char **argv) {
         [&](long long k, const bsx::Outcome &o) {
           const TC &cc = all[k];
           R.eval();
-          R.counters[cc.fam + "." + cc.fmt]++;
+          R.counters[cc.fam + (cc.mode.empty() ? "" : "-" + cc.mode) + "." + cc.fmt]++;
           if (o.ok) {
             R.cls(o.cls);
             if (o.extra.find("blocked") != std::string::npos) R.counters["mm.blocked-by-other-finding"]++;
